@@ -32,11 +32,14 @@ def ob_solver_sat():
     import z3 as realz3
 
     def body(c):
-        k = c.choose([True, True, True], "check-result")
+        k = c.choose([True, True, True, True], "check-result")          # sat / unsat / unknown / check() itself raises a Z3Exception
         ri = c.choose([True] * len(REASONS), "reason") if k == 2 else 0
 
         class Solver:
             def check(self, *a):
+                if k == 3:
+                    # observed: the sequence solver gives up with Z3Exception(b'reached max unfolding') out of check()
+                    raise realz3.Z3Exception(b"reached max unfolding")
                 return [realz3.sat, realz3.unsat, realz3.unknown][k]
 
             def reason_unknown(self):
@@ -47,7 +50,7 @@ def ob_solver_sat():
         except (PathEnd, Undecided):
             raise
         except (ClaripySolverInterruptError, ClaripyZ3Error) as ex:
-            if k != 2:
+            if k not in (2, 3):
                 c.fail("z3_solver_sat/error-only-for-unknown", f"raised {type(ex).__name__} although the solver answered")
             c.check("z3_solver_sat/claripy-error", True)
             return f"raises:{type(ex).__name__}"
@@ -57,6 +60,10 @@ def ob_solver_sat():
             c.check("z3_solver_sat/interrupted", True)
             return "raises:KeyboardInterrupt"
         except BaseException as ex:  # noqa
+            if k == 3 and isinstance(ex, realz3.Z3Exception):
+                c.fail("z3_solver_sat/giving-up-is-a-claripy-error", "the solver gave up by raising Z3Exception out of check(); it escapes as a raw z3.Z3Exception instead of a claripy error",
+                       kind="ensures_exc")
+                return "raw-z3exception"
             c.fail("z3_solver_sat/raises", f"{type(ex).__name__}: {ex}", kind="raises")
             return "raised"
         if k == 2:
@@ -66,7 +73,29 @@ def ob_solver_sat():
         c.check("z3_solver_sat/answer", True)
         return f"ret:{r}"
 
-    return explore(body, {"budget_s": 60})
+    return explore(body, {"budget_s": 60, "replay": replay_raw_z3exception})
+
+
+def replay_raw_z3exception(failure=None):
+    """native (the witness of the former finding rtc:strings/raw-z3exception): a string constraint set on which the sequence solver gives up"""
+    if "giving-up-is-a-claripy-error" not in str((failure or {}).get("label")):
+        return {"reproduced": True, "text": "clause on the return value / error class of z3_solver_sat (executed on the real function)"}
+    import pickle
+    import claripy
+    s_, t_ = claripy.StringS("kf_raw_s"), claripy.StringS("kf_raw_t")
+    for attempt in range(3):
+        s = claripy.SolverStrings()
+        s.add(claripy.StrConcat(s_, t_) == claripy.StringV("abc"))
+        s.add(claripy.StrLen(t_) == 1)
+        try:
+            s.satisfiable()
+            u = pickle.loads(pickle.dumps(s))
+            u.satisfiable(extra_constraints=[s_ == t_])
+        except claripy.errors.ClaripyError:
+            continue
+        except Exception as e:  # noqa
+            return {"reproduced": True, "text": f"SolverStrings: add(StrConcat(s, t) == 'abc'); add(StrLen(t) == 1); satisfiable(); pickle round trip; satisfiable(extra=[s == t]) raised {type(e).__module__}.{type(e).__name__}: {e}"}
+    return {"reproduced": False, "text": "the string solver did not give up with a raw Z3Exception in three attempts"}
 
 
 class GhostSolver:
